@@ -274,6 +274,135 @@ def gen_writer_cases(ctx, thorough):
     return cases
 
 
+# ------------------------------------------------------------------ the print macros (unix/print.rs)
+
+PRT_BOUNDS = [0, 1, 31, 32, 33, 255, 256, 257, 4095, 4096, 70000]
+PRT_KINDS = ["p", "P", "e", "E"]
+
+
+def gen_print_cases(ctx, thorough):
+    """`gen prt <kind> <tpl> <items> / <kernel tokens>`: the print!/println!/eprint!/eprintln!/dbg! macros under a scripted
+    `write` system call.  Piece lengths around every buffer-ish boundary in every position, mixed with small pieces."""
+    r = ctx.rng
+    cases = []
+    seedc = [0]
+
+    def g(n):
+        seedc[0] += 1
+        return "g%d.%d" % (n, seedc[0] % 89)
+
+    def shortw():
+        """a script of short writes only"""
+        m = r.choice([1, 3, 40, 300, 5000])
+        return ["k%d" % r.range(1, m) for _ in range(r.range(1, 30))]
+
+    def add(kind, tpl, args, toks):
+        cases.append("gen prt %s %s %s / %s" % (kind, tpl, " , ".join(" ".join(a) for a in args), " ".join(toks)))
+
+    rot = [0]
+
+    def kind_rot():
+        rot[0] += 1
+        return PRT_KINDS[rot[0] % 4]
+
+    # A. "{}" with two pieces: every pair of boundary lengths, every macro
+    for x in PRT_BOUNDS:
+        for y in PRT_BOUNDS:
+            kinds = PRT_KINDS if max(x, y) <= 4096 else [kind_rot()]
+            for k in kinds:
+                add(k, "a", [[g(x), g(y)]], [])
+                add(k, "a", [[g(x), g(y)]], shortw())
+    # B. three pieces: every triple of the smaller boundary set, a big piece between small ones
+    tri = [0, 1, 33, 255, 256, 257, 4096]
+    for x in tri:
+        for y in tri:
+            for z in tri:
+                add(kind_rot(), "a", [[g(x), g(y), g(z)]], shortw() if r.chance(1, 2) else [])
+    for (x, y, z) in [(1, 70000, 1), (5, 70000, 300), (256, 70000, 256), (70000, 1, 70000)]:
+        add(kind_rot(), "a", [[g(x), g(y), g(z)]], ["k65536", "k1", "k4096"])
+    # C. templates with literal segments (short, 255/256/257, 4096), boundary-length arguments in each position
+    small = [0, 3, 40, 300]
+    for tpl in ["b", "c", "d"]:
+        for x in PRT_BOUNDS[:-1] + [5000]:
+            for y in small:
+                for k in PRT_KINDS:
+                    add(k, tpl, [[g(x)], [g(y)]], shortw() if r.chance(1, 2) else [])
+                    add(k, tpl, [[g(y)], [g(x)]], shortw() if r.chance(1, 2) else [])
+                add(kind_rot(), tpl, [[g(y), g(x), g(1)], [g(2), g(y)]], shortw())
+    add("P", "b", [[g(1)], [g(70000)]], ["k1000"] * 5)
+    add("e", "d", [[g(70000)], [g(2)]], ["k33000"] * 3)
+    for k in PRT_KINDS:
+        for tpl in ["n", "l", "s"]:
+            for toks in [[], ["k1"] * 8, ["k299", "k1"], ["k256"], ["k255", "k1", "k1"], shortw()]:
+                add(k, tpl, [[]], toks)
+        for n in [0, 7, -1, -12, 1234567890123, -9223372036854775808, 9223372036854775807]:
+            for s_ in ["", "x", "héllo", "€" * 100]:
+                add(k, "g", [["n%d" % n, "s" + H(s_.encode())]], r.choice([[], ["k1"] * 12, shortw()]))
+        add(k, "a", [[]], ["k1"])
+        for t in UTF8_SAMPLES:
+            add(k, "a", [["s" + H(t.encode()), g(255), "s" + H(t.encode())]], ["k1", "k2", "k1", "k3", "k250"])
+    # D. dbg!
+    for toks in [[], ["k1"] * 40, ["k26", "k1", "k1"], shortw()]:
+        add("d", "n", [[]], toks)
+        for x in PRT_BOUNDS[:-1]:
+            add("d", "a", [[g(x)]], toks)
+            add("d", "a", [[g(2), g(x), g(3)]], toks)
+            add("d", "b", [[g(min(x, 300))], [g(x)]], toks)
+    add("d", "a", [[g(70000)]], ["k20", "k65000"])
+    # E. EINTR / errors / a zero return at every position of a short-write script
+    bases = [("b", [[g(2)], [g(300)]], ["k2", "k1", "k1", "k5", "k100", "k250", "k2", "k2"]),
+             ("a", [[g(3), g(256), g(2)]], ["k2", "k1", "k200", "k56", "k1", "k1"]),
+             ("c", [[g(1)], [g(40)]], ["k255", "k1", "k100", "k156", "k40", "k257"]),
+             ("a", [[g(0), g(5), g(0)]], ["k1", "k3", "k1", "k1", "k1"])]
+    for (tpl, args, base) in bases:
+        for pos in range(len(base) + 1):
+            for f in ["i", "e4", "e5", "e32", "e11", "k0", "i i", "k0 k0"]:
+                for k in ["p", "E"]:
+                    add(k, tpl, args, base[:pos] + f.split() + base[pos:])
+    for pos in range(6):
+        for f in ["i", "e9", "k0"]:
+            toks = ["k5", "k100", "k2", "k1", "k1"]
+            add("d", "b", [[g(2)], [g(3)]], toks[:pos] + [f] + toks[pos:])
+            add("P", "n", [[]], (["k1"] * pos + [f])[:2])
+    # F. the Display impl itself failing
+    for k in PRT_KINDS + ["d"]:
+        for pos in range(4):
+            items = [g(2), g(300), g(1)]
+            add(k, "a", [items[:pos] + ["f"] + items[pos:]], shortw() if pos % 2 else [])
+    # G. random
+    def rand_item():
+        c = r.below(10)
+        if c < 5:
+            return g(r.choice(PRT_BOUNDS[:-1]))
+        if c < 8:
+            return g(r.below(600))
+        return "s" + H("".join(r.choice(["a", "é", "€", "😀", " ", "\n"]) for _ in range(r.below(12))).encode())
+
+    for _ in range(1500 if not thorough else 8000):
+        k = r.choice(PRT_KINDS + ["d"])
+        if k == "d":
+            tpl = r.choice(["a", "a", "b", "n"])
+        else:
+            tpl = r.choice(["a", "a", "a", "b", "b", "c", "d", "l", "s", "n"])
+        nargs = {"a": 1, "b": 2, "c": 2, "d": 2}.get(tpl, 0)
+        args = [[rand_item() for _ in range(r.below(5))] for _ in range(nargs)] or [[]]
+        if r.chance(1, 25) and nargs:
+            a = r.choice(args)
+            a.insert(r.below(len(a) + 1), "f")
+        toks = shortw() if r.chance(3, 4) else []
+        c = r.below(10)
+        if c == 0:
+            toks.insert(r.below(len(toks) + 1), r.choice(["i", "e4", "e5", "e32"]))
+        elif c == 1:
+            toks.insert(r.below(len(toks) + 1), "k0")
+        add(k, tpl, args, toks)
+
+    def weight(line):
+        return sum(int(m) for m in re.findall(r"\bg(\d+)\.", line))
+    cases.sort(key=weight)          # smallest messages first: the first reported failing input is a small one
+    return cases
+
+
 def _valid(b):
     try:
         b.decode("utf-8")
@@ -346,9 +475,142 @@ def writer_spec(items, toks):
     return sink, "ok", used
 
 
+# ---- print macros: expected rendering and the "every byte once and in order" oracle
+
+PRT_OUT_RE = re.compile(r"^(done|panic) sink=(\S+) used=(\d+) fd=(\S+)$")
+
+
+def cyc(n):
+    return (b"0123456789abcdef" * (n // 16 + 1))[:n]
+
+
+def genb(n, seed):
+    return bytes(33 + (seed + i + i // 94) % 94 for i in range(n))
+
+
+def prt_messages(w):
+    """the messages a `prt` line asks for: [(rendering of the format string, newline)], the expected descriptor, the
+    kernel tokens.  A failing Display impl (`f`) ends the rendering of its message."""
+    kind, tpl = w[1], w[2]
+    sl = w.index("/")
+    args, hdrs, num = [[]], [None], None
+    for t in w[3:sl]:
+        if t == ",":
+            args.append([])
+            hdrs.append(None)
+        elif t == "f":
+            args[-1].append(None)
+        elif t[0] == "s":
+            args[-1].append(C.unhex(t[1:]))
+        elif t[0] == "g":
+            a, b = t[1:].split(".")
+            args[-1].append(genb(int(a), int(b)))
+        elif t[0] == "h":
+            hdrs[-1] = C.unhex(t[1:])
+        elif t[0] == "n":
+            num = int(t[1:])
+        else:
+            raise ValueError(t)
+
+    def render(segs):
+        out = b""
+        for sgm in segs:
+            if sgm is None:
+                break
+            out += sgm
+        return out
+
+    if kind == "d":
+        msgs = []
+        names = [b"a0", b"a1"]
+        for i, (h, a) in enumerate(zip(hdrs, args)):
+            pat = rb"^\[[^\]\s]*main\.rs:\d+\]$" if tpl == "n" else rb"^\[[^\]\s]*main\.rs:\d+\] " + names[i] + b" = $"
+            if h is None or not re.match(pat, h):
+                raise ValueError("dbg header %r" % (h,))
+            msgs.append((render([h] + a), b"\n"))
+        return msgs, "2", w[sl + 1:]
+    nl = b"\n" if kind in "PE" else b""
+    a0 = args[0]
+    a1 = args[1] if len(args) > 1 else []
+    if tpl == "n":
+        segs = []
+    elif tpl == "a":
+        segs = a0
+    elif tpl == "b":
+        segs = [b"id="] + a0 + [b" payload="] + a1 + [b" end"]
+    elif tpl == "c":
+        segs = [cyc(255)] + a0 + [cyc(256)] + a1 + [cyc(257)]
+    elif tpl == "d":
+        segs = [b"x"] + a0 + [cyc(4096)] + a1
+    elif tpl == "l":
+        segs = [cyc(300)]
+    elif tpl == "s":
+        segs = [b"done"]
+    elif tpl == "g":
+        segs = [b"n=%d s=" % num] + a0
+    else:
+        raise ValueError(tpl)
+    return [(render(segs), nl)], ("1" if kind in "pP" else "2"), w[sl + 1:]
+
+
+def prt_form(sink, msgs):
+    """is `sink` = R1[:n1] + NL1[:m1] + R2[:n2] + ... (each message a prefix of its rendering, then possibly its newline)?"""
+    def rec(j, o):
+        if j == len(msgs):
+            return o == len(sink)
+        R, NL = msgs[j]
+        rest = sink[o:]
+        if j == len(msgs) - 1:
+            for m in range(len(NL) + 1):
+                n = len(rest) - m
+                if 0 <= n <= len(R) and rest[:n] == R[:n] and rest[n:] == NL[:m]:
+                    return True
+            return False
+        lcp = 0
+        while lcp < len(R) and lcp < len(rest) and R[lcp] == rest[lcp]:
+            lcp += 1
+        for n in range(lcp, -1, -1):
+            for m in range(len(NL), -1, -1):
+                if rest[n:n + m] == NL[:m] and rec(j + 1, o + n + m):
+                    return True
+        return False
+    return rec(0, 0)
+
+
+def judge_prt(w, out):
+    m = PRT_OUT_RE.match(out)
+    if not m:
+        return "unexpected output: " + out[:80]
+    if m.group(1) == "panic":
+        return "the print macro panicked"
+    sink, used, fd = C.unhex(m.group(2)), int(m.group(3)), m.group(4)
+    msgs, exp_fd, toks = prt_messages(w)
+    if fd not in (exp_fd, "-") or (fd == "-" and sink):
+        return "wrong descriptor: fd %s, expected %s" % (fd, exp_fd)
+    consumed = toks[:used]
+    failed = any(t == "i" or t[0] == "e" for t in consumed)
+    zero = any(t == "a0" for t in consumed)
+    full = b"".join(R + NL for (R, NL) in msgs)
+    if sink == full:
+        return None
+    if not failed and not zero:
+        # the kernel only ever took fewer bytes than offered: everything must arrive, once, in order
+        if sorted(sink) == sorted(full):
+            return "bytes reached the descriptor out of order: first difference at offset %d of %d" % (
+                next(i for i in range(len(full)) if sink[i] != full[i]), len(full))
+        return "wrong bytes reached the descriptor (lost or duplicated): got %d bytes, expected %d" % (len(sink), len(full))
+    if prt_form(sink, msgs):
+        return None        # a message cut short at the failing write (and the newline of println! still attempted)
+    if zero:
+        return "bytes dropped after a write returned 0: the rest of the piece is skipped and later pieces are still written"
+    return "bytes out of order or lost in the middle of a message after a failed write"
+
+
 def judge(case, out):
     w = case.split()
     op = w[0]
+    if op == "prt":
+        return judge_prt(w, out)
     m = OUT_RE.match(out)
     if out.startswith("string-not-utf8"):
         return "String left containing invalid UTF-8: " + out
@@ -422,6 +684,9 @@ def run(ctx):
     ctx.rule = ("cases = scripted readers/writers: every piece-size sequence for totals <= 6 x capacities (0, exact fit -1/0/+1), totals around "
                 "0/31/32/33/64/96, EINTR / error / early EOF inserted at every position, UTF-8 2/3/4-byte scalars split at every byte, invalid "
                 "UTF-8 in the middle/at the end, random longer scripts from VERIF_SEED, readers/writers claiming more than offered; "
+                "print!/println!/eprint!/eprintln!/dbg! under a scripted write(2): write_str pieces of length 0/1/31/32/33/255/256/257/4095/4096/70000 in every "
+                "position of 2- and 3-piece messages, templates with short/255/256/257/4096-byte literal segments, short writes of 1..5000 bytes, "
+                "EINTR/errno/0 returned at every position; "
                 "distinct_nontrivial = distinct (op, result kind, growths, probe read seen, EINTR seen, carried-over bytes seen, exact-fit capacity) classes")
     ctx.assumptions += [
         "Model/Io.lean describes tiny-std/src/io.rs + io/read_buf.rs (checked at the level of results, buffers and reader/writer calls consumed by this run's correspondence; sizes offered to the reader and the initialised-bytes carry-over are compared too and reported as a NOTE when they drift, since they are not part of the property)",
@@ -429,6 +694,9 @@ def run(ctx):
         "UTF-8 validity is an abstract predicate in the theorems; the driver uses a Lean re-implementation of core::str::from_utf8's acceptance, compared with the real one on every rts case",
         "usize arithmetic does not overflow (all sizes are bounded by a Vec capacity <= isize::MAX)",
         "write_fmt: core::fmt::write turns the arguments into a sequence of write_str calls and stops at the first error (observed through a Display impl issuing one write_str per item)",
+        "print macros: the write(2) system call on fd 1/2 is scripted through the sc-shim (returns k <= count, 0, -EINTR or -errno; never more than count); the bytes the scripted kernel took, in order, are compared with a rendering of the message computed by the check itself",
+        "print macros: which write_str pieces core::fmt::write issues for a format string (one per non-empty literal segment up to 65535 bytes, literal-only strings as a single piece, `-` and the digits of an i64 separately) is toolchain behaviour, observed by the correspondence, not proved; the file:line header of dbg! is taken from the run",
+        "print macros: that print! locks __STDOUT_LOCK / eprint! __STDERR_LOCK around the whole message is not part of this check (single-threaded harness)",
     ]
     ok = C.lean_prove(ctx, "TinyVerif.Props.C15", drivers=["drv_c15"])
     exe, err = C.cargo_build(ctx, "c15")
@@ -438,7 +706,12 @@ def run(ctx):
         return
     drv = C.driver_path("drv_c15")
     streams = [("read_to_end", gen_reader_cases(ctx, thorough)), ("read_to_string", gen_string_cases(ctx, thorough)),
-               ("read_exact", gen_exact_cases(ctx, thorough)), ("write", gen_writer_cases(ctx, thorough))]
+               ("read_exact", gen_exact_cases(ctx, thorough)), ("write", gen_writer_cases(ctx, thorough)),
+               ]
+    # the zero-return scripts go in a stream of their own: their (known) spec failures must not crowd other failures
+    # out of the bounded list `correspond` reports
+    pr = gen_print_cases(ctx, thorough)
+    streams += [("print", [c for c in pr if " k0" not in c]), ("print_zero_return", [c for c in pr if " k0" in c])]
     drift = 0
     drift_example = None
     for name, abstract in streams:
@@ -488,6 +761,15 @@ def run(ctx):
                 feats += (min(ng, 3), any(x.startswith("32/") for x in calls) and int(w[2]) > init_len,
                           "i" in w[5:] or "e4" in w[5:], any(not x.endswith("/0") for x in calls), int(w[2]) == init_len)
                 ctx.hist("growths", ng)
+            elif w[0] == "prt":
+                lens = [int(x) for x in re.findall(r"\bg(\d+)\.", c)] or [0]
+                big = max(lens)
+                bucket = 0 if big < 32 else 1 if big < 255 else 2 if big < 256 else 3 if big < 4096 else 4 if big < 65536 else 5
+                ktoks = w[w.index("/") + 1:]
+                used = int(re.search(r"used=(\d+)", a).group(1))
+                fault = "zero" if "a0" in ktoks[:used] else "error" if any(t == "i" or t[0] == "e" for t in ktoks[:used]) else "short" if used else "none"
+                feats = (w[0], w[1], w[2], fault, bucket, lens.index(big) == 0, lens.index(big) == len(lens) - 1, "f" in w)
+                ctx.hist("print_faults", fault)
             else:
                 feats += ("i" in w[2:] or "e4" in w[2:], len(w) > 8)
             ctx.count(feats)
